@@ -390,6 +390,8 @@ static ares_status_t ares_parse_hosts_hostnames(ares_buf_t         *buf,
   while (ares_buf_len(buf)) {
     char          hostname[256];
     char         *temp;
+    char         *hash;
+    ares_bool_t   last = ARES_FALSE;
     ares_status_t status;
     unsigned char comment = '#';
 
@@ -422,14 +424,23 @@ static ares_status_t ares_parse_hosts_hostnames(ares_buf_t         *buf,
       continue;
     }
 
+    /* A comment may start right behind a name, without a blank in between
+     * ("myhost#the main server"): text from a '#' to the end of the line is a
+     * comment, hosts(5) */
+    hash = strchr(hostname, '#');
+    if (hash != NULL) {
+      *hash = 0;
+      last  = ARES_TRUE;
+    }
+
     /* Validate it is a valid hostname characterset */
     if (!ares_is_hostname(hostname)) {
-      continue;
+      goto next;
     }
 
     /* Don't add a duplicate to the same entry */
     if (ares_hosts_entry_isdup(entry, hostname)) {
-      continue;
+      goto next;
     }
 
     /* Add to list */
@@ -441,6 +452,11 @@ static ares_status_t ares_parse_hosts_hostnames(ares_buf_t         *buf,
     if (ares_llist_insert_last(entry->hosts, temp) == NULL) {
       ares_free(temp);
       return ARES_ENOMEM;
+    }
+
+next:
+    if (last) {
+      break;
     }
   }
 
